@@ -215,13 +215,23 @@ class Family:
 URI_FNS = ('decode', 'encode', 'encode_value', 'encode_check_escaped', 'encode_value_check_escaped', 'parse_host')
 
 
+def judged_form(e):
+    """an event as the judges read it: without the builders' own annotations"""
+    return {k: v for k, v in e.items() if k not in ('exc', 'meta', 'shown')}
+
+
 def expressible_uri(rec):
     """-> (event for UriTrace, None) or (None, reason).
 
+    The event is built by C10's own builder (checks/c10.py: call), i.e. the recorded call is made again on the tree under
+    test together with the extra calls UriTrace asks for (f(f(s)), the authority with ":8042" and with ":", decode of
+    the encoder's output); what the SUITE's call returned is then put in the place of the builder's own observation of
+    the same call (for a pure function the two are the same; a difference is counted in `differs`).
     Inside the model of UriOps: the argument is a str of Unicode scalar values (the model's text is a sequence of code
     points with a UTF-8 form; lone surrogates have none), at most TEXT_MAX long (TLC capacity); decode's flag is a bool;
     parse_host's default is None or an int.  Whether a parse_host argument is an authority at all is decided by the
     judge itself (UriOps!AuthorityShape; verdict H:input is counted as a skip)."""
+    from checks import c10
     fn = rec['fn']
     if fn == 'decode':
         a = bind(rec, ['encoded_uri', 'unquote_plus'], {'unquote_plus': True})
@@ -240,71 +250,75 @@ def expressible_uri(rec):
         return None, 'lone surrogate in the argument (no UTF-8 form; outside UriOps\' text)'
     if len(s) > TEXT_MAX:
         return None, 'argument longer than %d code points (TLC capacity)' % TEXT_MAX
-    e = {'fn': fn, 's': cps(s), 'plus': False, 'out': [], 'out2': [], 'port': -1, 'err': False, 'alt': []}
+    plus = False
+    default = None
     if fn == 'decode':
         if not isinstance(a['unquote_plus'], bool):
             return None, 'unquote_plus is not a bool'
-        e['plus'] = a['unquote_plus']
-    if 'exc' in rec:
-        e['err'] = True            # the property promises totality on text: judged (P:total)
-        return e, None
-    res = rec.get('res')
+        plus = a['unquote_plus']
     if fn == 'parse_host':
         d = a['default_port']
         if d is not None and (not isinstance(d, int) or isinstance(d, bool)):
             return None, 'default_port is not an int'
+        # the builder's default is one no authority can carry, so that "the default came back" is unambiguous
+        default = None if d is None else c10.BIG_DEFAULT
+    e = c10.call(fn, s, plus, default)
+    own = (e['err'], e['out'], e['port'])
+    blank = {k: ([] if isinstance(v, list) else v) for k, v in e.items()}
+
+    def failed():
+        x = dict(blank, fn=fn, s=e['s'], plus=e['plus'], err=True, port=-1)
+        return judged_form(x), None
+    if 'exc' in rec:                 # the property promises totality on text: judged (P:total)
+        return failed()
+    res = rec.get('res')
+    if fn == 'parse_host':
         t = res.get('t') if isinstance(res, dict) else None
         if not (isinstance(t, list) and len(t) == 2 and is_text(t[0])):
-            e['err'] = True
-            return e, None
+            return failed()
         host, port = t
-        if d is not None:
-            nd = rec.get('nodefault')
-            ndt = nd.get('t') if isinstance(nd, dict) else None
-            if not (isinstance(ndt, list) and len(ndt) == 2):
-                return None, 'no observation of the call without a default port'
-            if port == d and ndt[1] is None:
-                port = None          # the default came back, and without a default nothing comes back
-        if port is None:
-            e['port'] = -1
-        elif isinstance(port, int) and not isinstance(port, bool) and 0 <= port < 2 ** 31:
-            e['port'] = port
-        else:
-            e['port'] = -2           # not a port number: no specification value equals it
         if has_surrogate(host):
             return None, 'lone surrogate in the result'
-        e['out'] = cps(host)
-        alt = rec.get('alt')
-        e['alt'] = cps(alt) if is_text(alt) and not has_surrogate(alt) else [-1]
-        return e, None
-    if not is_text(res):
-        e['err'] = True
-        return e, None
-    if has_surrogate(res):
-        return None, 'lone surrogate in the result'
-    e['out'] = cps(res)
-    if fn.endswith('check_escaped'):
-        r2 = rec.get('res2')
-        e['out2'] = cps(r2) if is_text(r2) and not has_surrogate(r2) else [-1]
-    return e, None
+        d = a['default_port']
+        if port is None or (d is not None and port == d and e['port'] == -1 and not e['err']):
+            p = -1                   # the suite's default came back, and the builder saw no port in the text either
+        elif isinstance(port, int) and not isinstance(port, bool) and 0 <= port < 2 ** 31:
+            p = port
+        else:
+            p = -2                   # not a port number: no specification value equals it
+        e['err'] = False
+        e['out'], e['port'] = cps(host), p
+    else:
+        if not is_text(res):
+            return failed()
+        if has_surrogate(res):
+            return None, 'lone surrogate in the result'
+        e['err'] = False
+        e['out'] = cps(res)
+    x = judged_form(e)
+    if own != (e['err'], e['out'], e['port']):
+        x = dict(x)
+        DIFFERS['U'] += 1
+    return x, None
+
+
+DIFFERS = collections.Counter()      # recorded outcome differs from the builder's own observation of the same call
 
 
 # ------------------------------------------------------------------------------------------------
 # family Q: parse_query_string / to_query_str  ->  QueryStringTrace
 # ------------------------------------------------------------------------------------------------
 
-def _qev(op):
-    return {'op': op, 'q': [], 'kb': False, 'csv': False, 'entries': [], 'err': False, 'export': False,
-            'm': [], 'cl': False, 'prefix': False}
-
-
 def expressible_query(rec):
     """-> (event for QueryStringTrace, None) or (None, reason).
 
+    Events are built by C08's own builders (checks/c08.py: parse_event / render_event, the call made again on the tree
+    under test); the mapping / text the SUITE's call returned is then put in the place of the builder's observation.
     parse: the query string is a str of scalar values <= TEXT_MAX, both options are bools.
-    render: the mapping is None or a dict of str names whose values are text (str), integers (rendered, as documented,
-    through str(): the judge is given their decimal text) or lists of these; booleans, None, floats and other objects
-    have no counterpart in QueryStringOps!Render, which speaks of text only."""
+    render: the mapping is None or a dict of str names whose values are text, or objects with a documented rendering
+    (C08: int and float through str(), a scalar bool as true / false), or lists of text / int / float.  None, a bool
+    inside a list and other objects have no counterpart in the mapping QueryStringOps!Render speaks of."""
+    from checks import c08
     if rec['fn'] == 'parse_query_string':
         a = bind(rec, ['query_string', 'keep_blank', 'csv'], {'keep_blank': False, 'csv': False})
         if a is None:
@@ -318,26 +332,27 @@ def expressible_query(rec):
             return None, 'query string longer than %d code points (TLC capacity)' % TEXT_MAX
         if not isinstance(a['keep_blank'], bool) or not isinstance(a['csv'], bool):
             return None, 'option is not a bool'
-        e = _qev('parse')
-        e.update(q=cps(q), kb=a['keep_blank'], csv=a['csv'])
-        if 'exc' in rec:
-            e['err'] = True
-            return e, None
+        e, _ = c08.parse_event('func', q, a['keep_blank'], a['csv'])
+        own = (e['err'], e['entries'])
+        e['err'], e['entries'] = False, []
         res = rec.get('res')
         d = res.get('d') if isinstance(res, dict) else None
-        if not isinstance(d, list):
+        if 'exc' in rec or not isinstance(d, list):
             e['err'] = True
-            return e, None
-        for k, v in d:
-            vs = v if isinstance(v, list) else [v]
-            if not is_text(k) or not all(is_text(x) for x in vs):
-                e['err'] = True          # the mapping holds something that is no text: no reading of q gives that
-                e['entries'] = []
-                return e, None
-            if has_surrogate(k) or any(has_surrogate(x) for x in vs):
-                return None, 'lone surrogate in the result'
-            e['entries'].append({'k': cps(k), 'v': [cps(x) for x in vs], 'shape': 'list' if isinstance(v, list) else 'scalar'})
-        return e, None
+        else:
+            try:
+                params = {}
+                for k, v in d:
+                    if isinstance(k, str) and has_surrogate(k) or any(isinstance(x, str) and has_surrogate(x)
+                                                                      for x in (v if isinstance(v, list) else [v])):
+                        return None, 'lone surrogate in the result'
+                    params[k] = v
+                e['entries'] = c08.entries_of(params)
+            except TypeError:            # the mapping holds something that is no text: no reading of q gives that
+                e['err'] = True
+        if own != (e['err'], e['entries']):
+            DIFFERS['Q'] += 1
+        return judged_form(e), None
     a = bind(rec, ['params', 'comma_delimited_lists', 'prefix'], {'comma_delimited_lists': True, 'prefix': True})
     if a is None:
         return None, 'arguments do not fit the signature'
@@ -351,40 +366,46 @@ def expressible_query(rec):
     else:
         return None, 'params is not a dict'
 
-    def text_of(v):
+    def text_of(v, scalar):
+        """the documented rendering of a value (C08: str(); true / false for a scalar bool)"""
         if is_text(v):
             return v
-        if isinstance(v, int) and not isinstance(v, bool):
+        if isinstance(v, bool):
+            return ('true' if v else 'false') if scalar else None
+        if isinstance(v, int):
             return str(v)
+        if isinstance(v, dict) and set(v) == {'f'}:
+            return str(float(v['f']))
         return None
     m = []
+    typed = False
     for k, v in items:
         if not is_text(k):
             return None, 'parameter name is not a str'
         if isinstance(v, list):
-            vs = [text_of(x) for x in v]
+            vs = [text_of(x, False) for x in v]
             shape = 'list'
         else:
-            vs = [text_of(v)]
+            vs = [text_of(v, True)]
             shape = 'scalar'
         if any(x is None for x in vs):
-            return None, 'parameter value is neither text nor an integer (bool / None / float / object: not in Render\'s vocabulary)'
+            return None, 'parameter value without a documented rendering (None, a bool inside a list, an object)'
+        typed = typed or not all(is_text(x) for x in (v if isinstance(v, list) else [v]))
         if has_surrogate(k) or any(has_surrogate(x) for x in vs):
             return None, 'lone surrogate in the mapping'
         m.append({'k': cps(k), 'v': [cps(x) for x in vs], 'shape': shape})
     if sum(len(x['k']) + sum(len(y) for y in x['v']) for x in m) > TEXT_MAX:
         return None, 'mapping longer than %d code points (TLC capacity)' % TEXT_MAX
-    e = _qev('render')
-    e.update(m=m, cl=a['comma_delimited_lists'], prefix=a['prefix'])
-    if 'exc' in rec:
-        e['err'] = True
-        return e, None
+    e, _ = c08.render_event(m, a['comma_delimited_lists'], a['prefix'])
+    own = (e['err'], e['q'])
     res = rec.get('res')
-    if not is_text(res):
-        e['err'] = True
-        return e, None
-    e['q'] = cps(res)
-    return e, None
+    if 'exc' in rec or not is_text(res):
+        e['err'], e['q'] = True, []
+    else:
+        e['err'], e['q'] = False, cps(res)
+    if own != (e['err'], e['q']):
+        DIFFERS['Q'] += 1
+    return judged_form(e), None
 
 
 # ------------------------------------------------------------------------------------------------
@@ -396,7 +417,7 @@ def expressible_query(rec):
 TOKEN = r"[!#$%&'*+\-.^_`|~0-9A-Za-z]+"
 RE_MEMBER = re.compile(r'[ \t]*(%s)/(%s)[ \t]*((?:;[ \t]*%s=(?:%s|"[^",;\\"]*")[ \t]*)*)\Z' % (TOKEN, TOKEN, TOKEN, TOKEN))
 RE_PARAM = re.compile(r';[ \t]*(%s)=(?:(%s)|"([^",;\\"]*)")[ \t]*' % (TOKEN, TOKEN))
-RE_QVALUE = re.compile(r'(?:0(?:\.[0-9]{0,4})?|1(?:\.0{0,4})?)\Z')
+RE_QVALUE = re.compile(r'(?:0(?:\.[0-9]{0,7})?|1(?:\.0{0,7})?)\Z')      # as C11's renderer writes weights: up to 7 digits
 
 
 class Outside(Exception):
@@ -404,12 +425,13 @@ class Outside(Exception):
 
 
 def read_qvalue(v):
-    """thousandths, or -2 (QBAD: certainly not a real in [0, 1]); Outside for spellings neither grammar settles"""
+    """millionths (MediaTypesOps!QONE == 1000000), or -2 (QBAD: certainly not a real in [0, 1]); Outside for spellings
+    neither grammar settles"""
     if RE_QVALUE.match(v):
         digits = (v.split('.', 1) + [''])[1]
-        if len(digits) == 4 and digits[3] != '0':
-            raise Outside('q value is not a multiple of 0.001')
-        return int(v[0]) * 1000 + int((digits + '000')[:3])
+        if len(digits) == 7 and digits[6] != '0':
+            raise Outside('q value is not a multiple of 0.000001')
+        return int(v[0]) * 1000000 + int((digits + '000000')[:6])
     try:
         f = float(v)
     except ValueError:
@@ -474,21 +496,23 @@ def read_header(h):
     return out
 
 
-def thousandths(x):
+def quality_units(x):
+    """the recorded float in the judge's unit, by C11's own projection (checks/c11.py: _millionths)"""
+    from checks import c11
     if not (isinstance(x, dict) and 'f' in x):
         return -7
     try:
-        q = float(x['f'])
-    except ValueError:
+        return c11._millionths(float(x['f']))
+    except (ValueError, OverflowError):
         return -7
-    qi = int(round(q * 1000))
-    return qi if abs(q * 1000 - qi) <= 1e-6 else -7        # not a multiple of 0.001: cannot be what the header said
 
 
 def expressible_media(rec):
     """-> (event for MediaTypesTrace, None) or (None, reason).  The header and the media types must be readable by the
     strict grammar above (lower-case type/subtype, token or simple quoted parameter values, q last and a multiple of
-    0.001 or clearly bad); candidates are well-formed media types without q."""
+    0.000001 or clearly bad); candidates are well-formed media types without q.  Results are projected with C11's own
+    helpers (_millionths, _index)."""
+    from checks import c11
     if rec['fn'] == 'quality':
         a = bind(rec, ['media_type', 'header'], {})
         cands = a and [a['media_type']]
@@ -525,11 +549,9 @@ def expressible_media(rec):
     if kind == 'none':
         res = rec.get('res')
         if rec['fn'] == 'quality':
-            e['res'] = thousandths(res)
-        elif not res:
-            e['res'] = 0
+            e['res'] = quality_units(res)
         else:
-            e['res'] = cands.index(res) + 1 if res in cands else -1
+            e['res'] = c11._index(cands, res) if (res is None or is_text(res)) else -1
     return e, None
 
 
@@ -541,8 +563,8 @@ SKIP_FLAGS = {
     'too_many_events': 'more events than the recorder keeps per history',
     'unknown_start': 'object made before the recorder saw it (or alive across tests): initial state unknown',
     'closed_subreader_used_again': 'sub-reader used again after its parent had moved on (C14 assumes it is not)',
-    'call_during_iteration': 'another call between the chunks of an iteration (the documentation forbids mixing)',
-    'partial_iteration': 'iteration abandoned half-way (only complete loops are in the model)',
+    'call_during_iteration': 'another call between the chunks of an iteration over a reader (the documentation forbids mixing)',
+    'partial_iteration': 'iteration over a reader abandoned half-way (Cursor knows complete loops only)',
     'source_returned_non_bytes': 'the source returned something that is not bytes',
     'iteration_yielded_non_bytes': 'the iteration yielded something that is not bytes',
 }
@@ -557,7 +579,7 @@ def flags_reason(h):
     return None
 
 
-def event_reason(e, sized_ops):
+def event_reason(e, sized_ops, negative_ok=False):
     if 'badargs' in e:
         return 'call with arguments outside the public signature (private _size, wrong arity)'
     if 'indicator_exc' in e:
@@ -568,8 +590,8 @@ def event_reason(e, sized_ops):
     if e['op'] in sized_ops:
         if not isinstance(n, int) or isinstance(n, bool):
             return 'size argument is not an int'
-        if n < -1:
-            return 'size argument < -1 (the models know None / -1 and sizes >= 0)'
+        if n < -1 and not negative_ok:
+            return 'size argument < -1 (Cursor knows None / -1 and sizes >= 0)'
     return None
 
 
@@ -583,6 +605,7 @@ def expressible_reader(h):
     history small enough for TLC.  A delimit() whose sub-reader was never used is dropped (see below); a parent used
     before a sub-reader that WAS used is exhausted is rejected by the judge itself as outside its domain (H:endsub).  data = every byte the source returned: a correct reader decides from those bytes
     alone, so the cursor over them gives the same answers as the cursor over the source's full content."""
+    from checks import c14
     r = flags_reason(h)
     if r:
         return None, r
@@ -643,8 +666,10 @@ def expressible_reader(h):
             if res is None:
                 return None, SKIP_FLAGS['too_large']
         n = e['n'] if isinstance(e['n'], int) else -1
-        evs.append({'op': e['op'], 'n': min(n, 2 ** 31 - 1), 'd': d, 'c': bool(e['c']), 'res': res if not e['err'] else [],
-                    'err': bool(e['err']), 'lines': lines, 'tell': e['tell'], 'eof': e['eof'], 'pulled': e['pulled']})
+        x = c14._ev(e['op'], min(n, 2 ** 31 - 1), bytes(d), bool(e['c']))       # C14's own event skeleton
+        x.update(res=res if not e['err'] else [], err=bool(e['err']), lines=lines, tell=e['tell'], eof=e['eof'],
+                 pulled=e['pulled'])
+        evs.append(x)
     return {'kind': kind, 'data': data, 'cs': cs, 'maxlen': maxlen, 'ev': evs}, None
 
 
@@ -655,28 +680,37 @@ def expressible_reader(h):
 def expressible_stream(h):
     """-> (trace for BodyStreamTrace, None) or (None, reason).
 
-    WSGI: Content-Length (stream_len) is an int >= 0; `sent` = every byte wsgi.input returned to the stream (reach /
-    rawpos are counted on the recorder's forwarding proxy); wsgi.input is honest (a sized read never returns more than
-    asked).  ASGI: content_length None or an int >= 0; the event script = first_event + every event receive() returned,
-    each an http.request (body absent or bytes, more_body absent or a bool) or an http.disconnect.  Both: sizes None/-1
-    or >= 0, complete iterations only, whole history known, small enough for TLC."""
+    The trace head (cl, alt0, refok, dzero, drefuse) comes from C07's own abstraction of a Content-Length header
+    (checks/c07.py: classify) applied to the decimal text of the length the stream was constructed with, the events
+    from C07's event skeleton (_ev).  WSGI: stream_len is an int >= 0; `sent` = every byte wsgi.input returned to the
+    stream (reach / rawpos are counted on the recorder's forwarding proxy); wsgi.input is honest (a sized read never
+    returns more than asked).  ASGI: content_length None or an int >= 0; the event script = first_event + every event
+    receive() returned, each an http.request (body absent or bytes, more_body absent or a bool) or an http.disconnect;
+    iteration is stepwise (iternext / iterbreak).  Both: sizes are ints (negative ones included), whole history
+    known, small enough for TLC."""
+    from checks import c07
     r = flags_reason(h)
     if r:
         return None, r
     wsgi = h['cls'] == 'stream.wsgi'
+    iface = 'wsgi' if wsgi else 'asgi'
     ctor = h['ctor']
     cl = ctor.get('cl')
     if cl is None:
         if wsgi:
             return None, 'stream_len is None'
-        cl = -1
+        head = c07.classify(None, iface)
     elif not isinstance(cl, int) or isinstance(cl, bool) or cl < 0:
         return None, 'content length is not an int >= 0'
-    if cl >= 2 ** 31 or len(h['ev']) > EV_MAX:
-        return None, 'content length >= 2^31 or > %d events (TLC capacity)' % EV_MAX
+    elif cl > c07.CAP:
+        return None, 'content length > %d (C07 caps the numbers it hands to TLC)' % c07.CAP
+    else:
+        head = c07.classify(str(cl), iface)
+    if len(h['ev']) > EV_MAX:
+        return None, '> %d events (TLC capacity)' % EV_MAX
     evs = []
     for e in h['ev']:
-        r = event_reason(e, ('read', 'readline', 'readlines'))
+        r = event_reason(e, ('read', 'readline', 'readlines'), negative_ok=True)
         if r:
             return None, r
         if e['op'] in ('readlines',):
@@ -690,11 +724,11 @@ def expressible_stream(h):
             if res is None:
                 return None, SKIP_FLAGS['too_large']
         n = e['n'] if isinstance(e['n'], int) else -1
-        evs.append({'op': e['op'], 'n': min(n, 2 ** 31 - 1), 'res': res if not e['err'] else [], 'lines': lines,
-                    'stop': bool(e['stop']), 'err': e['err'], 'eof': e['eof'], 'tell': e['tell'], 'recv': e['recv'],
-                    'reach': min(e['reach'], 1000000), 'rawpos': e['rawpos']})
-    t = {'iface': 'wsgi' if wsgi else 'asgi', 'cl': cl, 'sent': [], 'evs': [], 'first': False, 'short': False, 'skip': [],
-         'ev': evs}
+        x = c07._ev(e['op'], max(min(n, 2 ** 31 - 1), -(2 ** 31) + 1))
+        x.update(res=res if not e['err'] else [], lines=lines, stop=bool(e['stop']), err=e['err'], eof=e['eof'],
+                 tell=e['tell'], recv=e['recv'], reach=min(e['reach'], c07.BIG), rawpos=e['rawpos'])
+        evs.append(x)
+    t = dict(head, iface=iface, sent=[], evs=[], first=False, short=False, ev=evs)
     if wsgi:
         sent = as_bytes(h.get('data'))
         if sent is None:
@@ -833,6 +867,53 @@ def settle(ctx, fam, items, verdicts, describe):
 # the check
 # ------------------------------------------------------------------------------------------------
 
+def format_guard():
+    """The reader / stream histories cannot be made again (their sources are gone), so their traces are assembled here
+    on the skeletons of C14 / C07.  If the owning check starts to write another set of fields than this file does, say
+    so in plain words instead of letting TLC fail on a missing record field."""
+    from checks import c07, c14
+    probs = []
+    # C14: one tiny history on the real sync reader
+    t, _ = c14.run_history('sync', b'ab', 2, 2, [1 << 30], [('read', 1)])
+    mine, why = expressible_reader({'cls': 'reader.sync', 'flags': [], 'ctor': {'maxlen': 2, 'cs': 2, 'default_cs': 2},
+                                    'data': {'b': 'ab'}, 'src': [[2, 2]],
+                                    'ev': [{'op': 'read', 'n': 1, 'd': {'b': ''}, 'c': False, 'res': {'b': 'a'}, 'err': False,
+                                            'lines': [], 'tell': -1, 'eof': -1, 'pulled': 2}]})
+    if mine is None:
+        probs.append('reader sample not expressible: %s' % why)
+    else:
+        if set(mine) != set(t):
+            probs.append('CursorTrace trace fields: c14 %s, g03 %s' % (sorted(t), sorted(mine)))
+        if set(mine['ev'][0]) != set(t['ev'][0]):
+            probs.append('CursorTrace event fields: c14 %s, g03 %s' % (sorted(t['ev'][0]), sorted(mine['ev'][0])))
+    # C07: one tiny case per interface on the real streams
+    for iface, case, hist in (
+            ('wsgi', {'iface': 'wsgi', 'clhdr': '2', 'sent': [97, 98], 'hist': [['read', 1, None]]},
+             {'cls': 'stream.wsgi', 'flags': [], 'ctor': {'cl': 2}, 'data': {'b': 'a'}, 'src': [['read', 1, 1]],
+              'ev': [{'op': 'read', 'n': 1, 'res': {'b': 'a'}, 'lines': [], 'stop': False, 'err': '', 'eof': 0, 'tell': -1,
+                      'recv': 0, 'reach': 1, 'rawpos': 1}]}),
+            ('asgi', {'iface': 'asgi', 'clhdr': None, 'first': False, 'hist': [['read', 1]],
+                      'evs': [{'t': 'req', 'body': [97], 'hb': True, 'mb': 1}]},
+             {'cls': 'stream.asgi', 'flags': [], 'ctor': {'cl': None, 'first': False, 'first_given': False},
+              'src': [{'t': 'req', 'body': {'b': 'a'}, 'hb': True, 'mb': 1}],
+              'ev': [{'op': 'read', 'n': 1, 'res': {'b': 'a'}, 'lines': [], 'stop': False, 'err': '', 'eof': 1, 'tell': 1,
+                      'recv': 1, 'reach': 0, 'rawpos': 0}]})):
+        t, _ = c07.run_case(case)
+        mine, why = expressible_stream(hist)
+        if mine is None:
+            probs.append('%s stream sample not expressible: %s' % (iface, why))
+            continue
+        if set(mine) != set(t):
+            probs.append('BodyStreamTrace trace fields (%s): c07 %s, g03 %s' % (iface, sorted(t), sorted(mine)))
+        if set(mine['ev'][0]) != set(t['ev'][0]):
+            probs.append('BodyStreamTrace event fields (%s): c07 %s, g03 %s' % (iface, sorted(t['ev'][0]), sorted(mine['ev'][0])))
+        if iface == 'asgi' and t['evs'] and mine['evs'] and set(t['evs'][0]) != set(mine['evs'][0]):
+            probs.append('BodyStreamTrace receive-event fields: c07 %s, g03 %s' % (sorted(t['evs'][0]), sorted(mine['evs'][0])))
+    if probs:
+        raise MachineryError('the trace formats of the owning checks have moved away from what checks/g03.py assembles:\n  '
+                             + '\n  '.join(probs))
+
+
 def run(ctx):
     ctx.rule = ('case = one distinct call of a uri / query-string / media-type function, or one reader / body-stream '
                 'history, made by a test of /repo/tests; distinct by hash of the judge\'s input; every judged case counts '
@@ -881,6 +962,7 @@ def _run(ctx, outdir):
     ctx.extra['recorder'] = {'late_patched': late, 'processes': len(metas)}
     ctx.progress('%d distinct function records, %d histories' % (len(fns), len(hists)))
 
+    format_guard()
     fam = {k: Family(k, t) for k, t in FAMILIES}
     fam['U'].calls = sum(counts.get(f, 0) for f in URI_FNS)
     fam['Q'].calls = counts.get('parse_query_string', 0) + counts.get('to_query_str', 0)
@@ -935,6 +1017,10 @@ def _run(ctx, outdir):
         settle(ctx, f, items, verdicts, describe_hist)
         ctx.progress('family %s: %d distinct histories judged by %s' % (key, len(items), module))
     selftest(ctx, fam)
+    ctx.extra['recorded_outcome_differs_from_rebuilt'] = dict(DIFFERS)
+    if DIFFERS:
+        print('G03 NOTE: for %s recorded calls the outcome in the suite differs from the outcome of the same call made again '
+              'by the builder (the recorded outcome was judged)' % dict(DIFFERS))
 
     ctx.extra['families'] = {k: fam[k].summary() for k, _ in FAMILIES}
     for k, title in FAMILIES:
@@ -980,9 +1066,10 @@ def selftest(ctx, fam):
     if x:
         x['q'] = x['q'][:-1] + [x['q'][-1] + 1 if x['q'][-1] in (48, 97) else 48]
         cases.append(('QueryStringTrace', XSS, {'ev': [x]}, 'P:roundtrip'))
-    x = first('M', lambda e: e['op'] == 'quality' and e['exc'] == 'none' and e['res'] == 1000)
+    from checks import c11
+    x = first('M', lambda e: e['op'] == 'quality' and e['exc'] == 'none' and e['res'] == c11.QONE)
     if x:
-        x['res'] = 500
+        x['res'] = c11.QONE // 2
         cases.append(('MediaTypesTrace', None, {'ev': [x]}, 'P:quality'))
     x = first('M', lambda e: e['op'] == 'best' and e['exc'] == 'none' and e['res'] >= 1 and len(e['cands']) >= 2)
     if x:
@@ -1070,7 +1157,6 @@ def reexecute(rec):
         new['exc'] = R._exc(ex)
         return new
     new['res'] = R.enc(res)
-    R._URI_FUNCS.get(name, R._probe_none)(f, a, k, res, new)
     return new
 
 
